@@ -29,7 +29,65 @@ impl Val for Rev {
     fn of(n: &str) -> Self { Rev(255 - (idx(n) as u8).wrapping_mul(37), n.to_string()) }
     fn name(&self) -> String { self.1.clone() }
 }
+/// Universe selector for Type-valued elements: false = structurally unrelated bodies, true = "near misses"
+/// (one rich enum definition; each value differs from value 0 in exactly one leaf part).
+static NEAR: std::sync::atomic::AtomicBool = std::sync::atomic::AtomicBool::new(false);
+fn set_near(b: bool) { NEAR.store(b, std::sync::atomic::Ordering::SeqCst) }
+
+/// One leaf of a rich definition changed per value: any equality/ordering that ignores a part of
+/// Type<PortableForm> conflates two of these.
+fn near_of(n: &str) -> Type<PortableForm> {
+    use scale_info::{Path, TypeParameter};
+    let k = idx(n);
+    let s = |x: &str| x.to_string();
+    let mut path = vec![s("m"), s("E")];
+    let mut pname = s("T");
+    let mut pty: Option<u32> = Some(1);
+    let mut tdocs = vec![s("d")];
+    let (mut an, mut ai, mut adocs) = (s("A"), 0u8, vec![s("a")]);
+    let (mut fname, mut fty, mut ftn, mut fdocs) = (Some(s("x")), 1u32, Some(s("X")), vec![s("fx")]);
+    let (mut bi, mut bdocs) = (1u8, vec![]);
+    let mut swap = false;
+    let mut composite = false;
+    match k {
+        0 => {}
+        1 => adocs = vec![s("a2")],
+        2 => adocs = vec![],
+        3 => fdocs = vec![s("fy")],
+        4 => ftn = Some(s("Y")),
+        5 => ftn = None,
+        6 => fname = Some(s("y")),
+        7 => fty = 2,
+        8 => ai = 7,
+        9 => an = s("A2"),
+        10 => tdocs = vec![s("d"), s("")],
+        11 => pname = s("U"),
+        12 => pty = None,
+        13 => pty = Some(2),
+        14 => path = vec![s("m"), s("F")],
+        15 => bi = 2,
+        16 => swap = true,
+        17 => composite = true,
+        18 => fdocs = vec![],
+        19 => path = vec![s("E")],
+        20 => adocs = vec![s("a"), s("a")],
+        21 => fname = None,
+        _ => bdocs = vec![s(n)],
+    }
+    let field = scale_info::Field::<PortableForm>::new(fname, fty.into(), ftn, fdocs);
+    let tp = vec![TypeParameter::<PortableForm>::new_portable(pname, pty.map(Into::into))];
+    let path = Path::from_segments_unchecked(path);
+    if composite {
+        return Type::new(path, tp, scale_info::TypeDefComposite::new(vec![field]), tdocs);
+    }
+    let va = scale_info::Variant::<PortableForm>::new(an, vec![field], ai, adocs);
+    let vb = scale_info::Variant::<PortableForm>::new(s("B"), vec![], bi, bdocs);
+    Type::new(path, tp, scale_info::TypeDefVariant::new(if swap { vec![vb, va] } else { vec![va, vb] }), tdocs)
+}
 fn body_of(n: &str) -> Type<PortableForm> {
+    if NEAR.load(std::sync::atomic::Ordering::SeqCst) {
+        return near_of(n);
+    }
     let k = idx(n);
     match k % 4 {
         0 => Type::new(Default::default(), vec![], TypeDefPrimitive::U8, vec![format!("{n}")]),
@@ -179,9 +237,10 @@ fn replay_builder(i: usize, t: &Value, out: &mut Out, bad: &mut u64, n: &mut u64
 fn record(seed: u64, walks: usize, len: usize, path: &str) {
     let mut rng = StdRng::seed_from_u64(seed);
     let mut out = Out::create(path);
-    let names: Vec<String> = (0..12).map(|i| format!("v{i}")).collect();
+    let names: Vec<String> = (0..24).map(|i| format!("v{i}")).collect();
     for w in 0..walks {
-        let kind = ["string", "rev", "body", "builder"][w % 4];
+        let kind = ["string", "rev", "body", "builder", "body", "builder"][w % 6];
+        set_near(w % 6 >= 4); // Type-valued walks alternate between unrelated bodies and near misses
         out.put(&json!({"ev": "reset", "kind": kind}));
         let don_s = donor::<String>();
         let don_r = donor::<Rev>();
@@ -288,8 +347,12 @@ fn main() {
             for (i, t) in ts.iter().enumerate() {
                 replay_interner::<String>("string", i, t, &mut out, &mut bad, &mut n);
                 replay_interner::<Rev>("rev", i, t, &mut out, &mut bad, &mut n);
-                replay_interner::<Body>("body", i, t, &mut out, &mut bad, &mut n);
-                replay_builder(i, t, &mut out, &mut bad, &mut n);
+                for near in [false, true] {
+                    set_near(near);
+                    replay_interner::<Body>(if near { "body/near" } else { "body" }, i, t, &mut out, &mut bad, &mut n);
+                    replay_builder(i, t, &mut out, &mut bad, &mut n);
+                }
+                set_near(false);
             }
             out.flush();
             println!("{}", json!({"executed": n, "mismatches": bad}));
